@@ -22,7 +22,7 @@ Definition fresh_call (fx : facts) (recv : rval) (f : string) (args : list val) 
 
 (* the control built-ins have no value of interest *)
 Definition control_builtin (f : string) : bool :=
-  String.eqb f "Retract" || String.eqb f "Complete" || String.eqb f "Forget" || String.eqb f "Changed".
+  match defunc_kind f with DOther => false | _ => true end.
 
 Fixpoint fresh_expr (fx : facts) (e : expr) {struct e} : res rval :=
   match e with
@@ -165,12 +165,102 @@ Lemma fresh_args_unfold : forall fx l, fresh_args fx l =
   end.
 Proof. intros fx [|e l']; reflexivity. Qed.
 
+(* ---- SPEC of the actions: every right-hand side is computed from scratch on the facts
+        as left by the preceding action, then stored at the addressed location ---- *)
+Definition fresh_target (fx : facts) (x : var) : res target :=
+  match x with
+  | VName n => Ok (TTop n)
+  | VMember x' n =>
+      match fresh_var fx x' with
+      | Ok (RRef p) => Ok (TField p n)
+      | Ok (RV _) => Err
+      | Err => Err
+      | Panic => Panic
+      end
+  | VSel x' sel =>
+      match fresh_var fx x' with
+      | Ok r =>
+          match fresh_expr fx sel with
+          | Ok k => match r with RRef p => Ok (TIndex p (scalar_of fx k)) | RV _ => Err end
+          | Err => Err
+          | Panic => Panic
+          end
+      | Err => Err
+      | Panic => Panic
+      end
+  end.
+
+Inductive sres := SOk (fx : facts) (fxs : list effect) | SFail.
+
+Definition spec_stmt (fx : facts) (st : stmt) : sres :=
+  match st with
+  | SAssign x o e =>
+      match fresh_expr fx e with
+      | Ok rv =>
+          let v := scalar_of fx rv in
+          let nvr := match asg_op o with
+                     | None => Ok v
+                     | Some f => match fresh_var fx x with
+                                 | Ok cur => f (scalar_of fx cur) v
+                                 | Err => Err
+                                 | Panic => Panic
+                                 end
+                     end in
+          match nvr with
+          | Ok nv =>
+              match fresh_target fx x with
+              | Ok t => match write_target fx t nv with Ok fx' => SOk fx' [] | _ => SFail end
+              | _ => SFail
+              end
+          | _ => SFail
+          end
+      | _ => SFail
+      end
+  | SAtom (AFunc f args) =>
+      match fresh_args fx args with
+      | Ok vs =>
+          match defunc_kind f, map (scalar_of fx) vs with
+          | DRetract, [VStr n] => SOk fx [FxRetract n]
+          | DComplete, [] => SOk fx [FxComplete]
+          | DForget, [VStr _] => SOk fx []
+          | DOther, _ => match defunc_value fx f vs with Ok _ => SOk fx [] | _ => SFail end
+          | _, _ => SFail
+          end
+      | _ => SFail
+      end
+  | SAtom a => match fresh_atom fx a with Ok _ => SOk fx [] | _ => SFail end
+  end.
+
+(* run the list in order; stop at the first failure, keeping what was done *)
+Fixpoint spec_stmts (fx : facts) (l : list stmt) (acc : list effect) : facts * list effect * bool :=
+  match l with
+  | [] => (fx, acc, false)
+  | st :: l' =>
+      match spec_stmt fx st with
+      | SOk fx' fxs => spec_stmts fx' l' (acc ++ fxs)
+      | SFail => (fx, acc, true)
+      end
+  end.
+
 (* does the condition hold?  (RuleEntry.Evaluate: a boolean true; anything else, including failures, is "no") *)
 Definition holds (fx : facts) (cond : expr) : cres :=
   match fresh_expr fx cond with
   | Ok (RV (VBool true)) => CTrue
   | Ok (RV (VBool false)) => CFalse
   | _ => CErr
+  end.
+
+(* the SPEC instantiation of the abstract engine: the user state is just the facts *)
+Variable rules : list rule.
+Definition spec_cond (fx : facts) (e : entry) : facts * cres :=
+  match find (fun r => String.eqb (rname r) (e_key e)) rules with
+  | Some r => (fx, holds fx (rwhen r))
+  | None => (fx, CErr)
+  end.
+Definition spec_act (fx : facts) (e : entry) : facts * list effect * bool :=
+  match find (fun r => String.eqb (rname r) (e_key e)) rules with
+  | Some r => spec_stmts fx (rthen r) []
+  | None => (fx, [], true)
   end.
 
 End Fresh.
